@@ -73,6 +73,13 @@ func solveOnce(vm *engine.VM, goal engine.Term) string {
 func solveAll(vm *engine.VM, goal, template engine.Term, max int) ([]string, error) {
 	var out []string
 	_, err := solve(vm, goal, max, 10*time.Second, func(env *engine.Env) bool {
+		// a cyclic answer (possible with =/2 on pairs subject to occurs check) cannot be printed
+		acyclic := false
+		_, _ = engine.AcyclicTerm(vm, template, func(*engine.Env) *engine.Promise { acyclic = true; return engine.Bool(true) }, env).Force(context.Background())
+		if !acyclic {
+			out = append(out, "cyclic")
+			return true
+		}
 		out = append(out, wire(template, env, newVarNamer()))
 		return true
 	})
